@@ -611,6 +611,13 @@ def _pure_return_components(repo: Repo, f: Func) -> Set[int]:
                 if isinstance(a0, ast.Name) and a0.id in params:
                     assigns.setdefault(n.target.elts[1].id, []).append(ast.Subscript(
                         value=a0, slice=ast.Constant(0), ctx=ast.Load()))
+            elif isinstance(n.target, ast.Name):
+                # for v in arr[...]   (the same iteration with a manual counter instead of enumerate)
+                a0 = it
+                while isinstance(a0, ast.Subscript):
+                    a0 = a0.value
+                if isinstance(a0, ast.Name) and a0.id in params:
+                    assigns.setdefault(n.target.id, []).append(ast.Subscript(value=a0, slice=ast.Constant(0), ctx=ast.Load()))
     while changed:
         changed = False
         for nm, vals in assigns.items():
@@ -656,10 +663,14 @@ def _k5_kernel(repo: Repo, f: Func, res: RuleResult):
     if rets and isinstance(rets[-1].value, ast.Name):
         out_name = rets[-1].value.id
 
+    tuple_results: Dict[str, Set[int]] = {}      # r = helper(pure array)  ->  indices i for which r[i] is an input element
+
     def is_pure(e: ast.AST) -> bool:
         if isinstance(e, ast.Name):
             return e.id in pure_names
         if isinstance(e, ast.Subscript):
+            if isinstance(e.value, ast.Name) and e.value.id in tuple_results:
+                return const_int(e.slice) in tuple_results[e.value.id]
             b = base_name(e)
             return b in pure_arrays
         return False
@@ -671,6 +682,12 @@ def _k5_kernel(repo: Repo, f: Func, res: RuleResult):
             if isinstance(n, ast.Assign) and len(n.targets) == 1:
                 t, v = n.targets[0], n.value
                 if isinstance(t, ast.Name):
+                    if isinstance(v, ast.Call) and isinstance(v.func, ast.Name) and v.func.id in m.functions and t.id not in tuple_results:
+                        # the tuple result of a selection helper kept whole:  r = helper(row); ... r[0]
+                        comps_ = _pure_return_components(repo, m.functions[v.func.id])
+                        if comps_ and any((isinstance(a, ast.Name) and (a.id in pure_names or a.id in pure_arrays))
+                                          or (isinstance(a, ast.Subscript) and base_name(a) in pure_arrays) for a in v.args):
+                            tuple_results[t.id] = comps_; changed = True
                     if is_pure(v) and t.id not in pure_names and t.id not in roles.local_arrays:
                         pure_names.add(t.id); changed = True
                     # row view of a pure array: window_vals = group_buffers[key]
